@@ -154,3 +154,22 @@ prop(
     trusted=[A_H2, A_NET, A_SYNC],
     not_decided=["starvation freedom beyond 'credit is returned for what is consumed and blocked senders read the network'", "h2's own window arithmetic (assumed)"],
 )
+
+from . import structural as _S  # noqa: E402
+
+prop(
+    "C18",
+    title="sync and async behave identically",
+    level="proof",
+    explanation="twin obligation per function: sync f == erase_async(unasync(async f)) on ast normal forms, plus file level: same files, every sync line is the translated async line, same line count, same module-level statements (the script's own --check stops at the shorter file); hand-written async/sync method pairs inside one file (Response, ByteStream, mock backends) compared after the same erasure. Decided syntactically (no solver): a degenerate relational proof. Behavioural equality 'for every scenario' follows only up to the shared contracts: every other property's check discharges the same contract set on both trees (obligation ids carry [async]/[sync])",
+    technique="contract-based deductive verification, degenerate case: relational twin obligation decided by ast normal-form equality (no solver); plus the shared contract set proved on both trees by the other checks",
+    structural=[_S.twin_obligations],
+    trusted=["the unasync substitution table as read from scripts/unasync.py", "the paired primitives of _synchronization.py (AsyncLock/Lock, AsyncEvent/Event, AsyncSemaphore/Semaphore, shields) satisfy the same assumed primitive contract (A-runtime): not compared"],
+    not_decided=["behavioural equality beyond the strength of the shared contracts", "Trace.atrace vs Trace.trace (deliberately different coroutine checks)"],
+)
+for _p, _gens in {
+    "C01": [_S.const_field_frames], "C04": [_S.const_field_frames, _S.pool_list_frames, _S.connect_site_frames], "C05": [_S.const_field_frames],
+    "C06": [_S.const_field_frames, _S.connect_site_frames], "C08": [_S.pool_list_frames], "C09": [_S.const_field_frames], "C10": [_S.const_field_frames],
+    "C12": [_S.const_field_frames], "C20": [_S.connect_site_frames],
+}.items():
+    PROPS[_p]["structural"] = list(PROPS[_p].get("structural", [])) + _gens
